@@ -172,8 +172,8 @@ REG['C12'] = {
     'level': 'proof',
     'design_ref': '5/C12',
     'technique': 'Verus on SolarTime::next / subtract extracted verbatim; Kani on ordering, validation and the instant->JD->instant round trip through the f64 chain (sliced); grid execution for fractional Julian dates',
-    'level_text': 'Deductive part: adding n seconds moves the absolute second by exactly n for every instant and |n| <= 4e11 (Verus, real carries; day part by the C01 day-stepping contract, hence across months, years and the 1582 gap); difference == distance in seconds (Verus); before/after == lexicographic (date, second-of-day) (Kani); acceptance of clock fields (Kani); instant -> Julian date -> instant identity for all 86,400 seconds of every date (Kani, f64 bit-precise; quick: stated subset of 100 year-slices, thorough: all). Leaf part (bounded): fractional Julian dates on a fine grid around every rounding/carry boundary yield a valid instant within half a second.',
-    'level_note': 'E8 desugaring of `x %= 60` in the Verus extraction; arbitrary-fraction JD->instant is bounded (grid), not proved; the last half second of 9999-12-31 rounds to year 10000 and is refused (outside the claim)',
+    'level_text': 'Deductive part: adding n seconds moves the absolute second by exactly n for every instant and |n| <= 4e11 (Verus, real carries; day part by the C01 day-stepping contract, hence across months, years and the 1582 gap); difference == distance in seconds (Verus); before/after == lexicographic (date, second-of-day) (Kani); acceptance of clock fields (Kani); instant -> Julian date -> instant identity for all 86,400 seconds of every date (Kani, f64 bit-precise; quick: stated subset of 100 year-slices, thorough: all). Arbitrary fractional Julian dates: thorough tier proves it for every f64 in range (Kani, c12_k_jd_fraction, 16 slices x ~10 min); quick tier executes a fine grid around every rounding/carry boundary (bounded).',
+    'level_note': 'E8 desugaring of `x %= 60` in the Verus extraction; arbitrary-fraction JD->instant is proved only in the thorough tier (measured 537 s per slice), the quick tier uses the grid; the last half second of 9999-12-31 rounds to year 10000 and is refused (outside the claim)',
     'functions': ['SolarTime::next', 'SolarTime::subtract', 'SolarTime::is_before/is_after/eq', 'SolarTime::new', 'SolarTime::get_julian_day', 'JulianDay::from_ymd_hms', 'JulianDay::get_solar_time'],
     'K': [
         dict(id='c12_k_time_order', fn='SolarTime::is_before / is_after / eq', clause='strict lexicographic order on (date, second of day)'),
@@ -182,6 +182,9 @@ REG['C12'] = {
         dict(id='c12_k_jd_roundtrip', sliced=True, quick=dict(boundary=['v:1582', -1], sample=1), fn='SolarTime::get_julian_day / JulianDay::get_solar_time',
              clause='t.get_julian_day().get_solar_time() == t for every valid date and every second of the day',
              paired_leaf=dict(check='c12_roundtrip', range=(1, 9999), chunks=32)),
+        dict(id='c12_k_jd_fraction', sliced=True, thorough_only=True, fn='JulianDay::get_solar_time',
+             clause='for EVERY f64 Julian date in range (symbolic day number x every fraction in [0,1)): clock fields in range, valid date, same or next day, within 0.5 s (+1e-4 f64 resolution) of the Julian date',
+             paired_leaf=dict(check='c12_fraction', range=(1, 9999), chunks=32)),
     ],
     'V': [
         dict(id='c12_time_next', template='verus/c12_time_next.rs', twin_quick=True,
